@@ -112,7 +112,43 @@ def run(ctx):
                     continue  # np.random.choice(num_nodes, ...): positions below an integer parameter, not a hyperedge
                 calls.append((n, dn))
             if not calls:
-                res.unknown("D-SAMPLE", f, "random.sample(nodes, size)", "k=size", "no node-sampling call recognised", loc(v.fi, v.fi.node))
+                # the draw moved into a module-level helper: `_sample_node_tuple(hg.num_nodes(), size)` -> random.sample(range(n), k).
+                # For a function that is GIVEN a hypergraph the population has to be its node labels; positions 0..N-1 are labels
+                # only for hypergraphs that were generated that way
+                decided = False
+                hg_params = [a.arg for a in v.fi.params if a.arg in ("hg", "h", "hypergraph", "H")]
+                for c in walk_no_nested(v.fi.node):
+                    if not isinstance(c, ast.Call):
+                        continue
+                    for g in ctx.callees(v.fi, c):
+                        if g.module is not v.fi.module or g.cls is not None:
+                            continue
+                        gv = ctx.view(g)
+                        for n2, dn2 in sample_calls(gv):
+                            pop2, _k2, _r2 = sample_parts(n2, dn2)
+                            e2 = gv.inline(pop2) if pop2 is not None else None
+                            inner2 = e2.args[0] if isinstance(e2, ast.Call) and norm(e2.func) in ("list", "tuple", "sorted") and len(e2.args) == 1 else e2
+                            if isinstance(inner2, ast.Call) and norm(inner2.func) == "range" and len(inner2.args) == 1 and isinstance(inner2.args[0], ast.Name):
+                                pnames = [a.arg for a in g.params]
+                                if inner2.args[0].id in pnames:
+                                    i_ = pnames.index(inner2.args[0].id)
+                                    arg = c.args[i_] if i_ < len(c.args) else next((k.value for k in c.keywords if k.arg == inner2.args[0].id), None)
+                                    ai = v.inline(arg, depth=2) if arg is not None else None
+                                    # a NODE count of the given hypergraph (`hg.num_nodes()`, `len(hg.get_nodes())`) - not the length of an
+                                    # edge list, whose positions are what a rewiring draw legitimately ranges over
+                                    from_hg = ai is not None and hg_params and any(isinstance(x, ast.Call) and isinstance(x.func, ast.Attribute) and x.func.attr in ("num_nodes", "get_nodes") and isinstance(x.func.value, ast.Name) and x.func.value.id in hg_params for x in ast.walk(ai))
+                                    if not from_hg and ai is not None and any(isinstance(x, ast.Call) and isinstance(x.func, ast.Attribute) and x.func.attr in ("get_edges", "num_edges") for x in ast.walk(ai)):
+                                        continue
+                                    decided = True
+                                    if from_hg:
+                                        res.violation("D-SAMPLE", f, norm(c)[:100], "population", f"`{g.short}` draws node POSITIONS from range(`{norm(ai)[:40]}`), a count taken from the given hypergraph: its nodes are labels (any hashable, with gaps after removals), so hyperedges over non-existing nodes are added (and existing nodes with other labels are never chosen)", loc(v.fi, c))
+                                    else:
+                                        res.ok("D-SAMPLE", f, norm(c)[:100], "population", loc(v.fi, c))
+                            elif e2 is not None:
+                                decided = True
+                                res.unknown("D-SAMPLE", f, norm(c)[:100], "population", f"the draw happens in `{g.short}` from `{norm(e2)[:40]}`", loc(v.fi, c))
+                if not decided:
+                    res.unknown("D-SAMPLE", f, "random.sample(nodes, size)", "k=size", "no node-sampling call recognised", loc(v.fi, v.fi.node))
                 continue
             for n, dn in calls:
                 pop, k, repl_ok = sample_parts(n, dn)
